@@ -59,7 +59,7 @@ def strategy(tier):
 
 
 def budget(tier):
-    return 6000 if tier == "quick" else 1000000
+    return 6000 if tier == "quick" else 600000
 
 
 def _faces(case):
